@@ -136,6 +136,12 @@ class TGen:
             if k < 0.45:
                 return ('bin', r.choice(['+', '-', '*', '+', '-']), E('num'), E('num'))
             if k < 0.5:
+                if r.random() < 0.5:
+                    # literal-or-variable % data variable (F-C01-g: a Go int on the left of a pugjs.Number)
+                    rv = self.recv(env, lambda x: x == 'num', 0)
+                    if rv:
+                        lv = self.lit('num') if r.random() < 0.5 else (self.recv(env, lambda x: x == 'num', 0) or self.lit('num'))
+                        return ('bin', '%', lv, rv)
                 return ('bin', '%', E('num'), ('num', r.choice([2, 3, 5, 7])))
             if k < 0.55:
                 return ('bin', '/', ('bin', '*', E('num'), ('num', 2)), ('num', 2))
